@@ -14,6 +14,8 @@ IFCONVERTED = {}    # module name -> qualnames where an if-conversion was applie
 IFCONV = {
     'crysp.crc': ('crc_table', 'crc_back_table', 'crc32_fix'),
     'crysp.bits': ('Bits.__setitem__', 'Bits.signextend'),
+    'crysp.tlsh': ('distance', 'distance.diffmod'),
+    'crysp.nilsimsa': ('Nilsimsa.digest',),
 }
 
 
@@ -40,13 +42,18 @@ class Tx(ast.NodeTransformer):
         if isinstance(st, ast.Assign) and len(st.targets) == 1 and isinstance(st.targets[0], (ast.Name, ast.Attribute)):
             t = st.targets[0]
             return ast.dump(t), t, st.value
+        if isinstance(st, ast.AugAssign) and isinstance(st.target, ast.Subscript):
+            # x[i] op= e  (i pure): both arms evaluate x[i]
+            t = st.target
+            load = ast.Subscript(t.value, t.slice, ast.Load())
+            return ast.dump(ast.Subscript(t.value, t.slice, ast.Store())), t, ast.BinOp(load, st.op, st.value)
         if isinstance(st, ast.AugAssign) and isinstance(st.target, (ast.Name, ast.Attribute)):
             t = st.target
             load = ast.Name(t.id, ast.Load()) if isinstance(t, ast.Name) else ast.Attribute(t.value, t.attr, ast.Load())
             return ast.dump(ast.Name(t.id, ast.Store()) if isinstance(t, ast.Name) else ast.Attribute(t.value, t.attr, ast.Store())), t, ast.BinOp(load, st.op, st.value)
         return None
 
-    def _try_ifconv(self, node):
+    def _try_ifconv(self, node, nested=False):
         qn = '.'.join(self.stack)
         if qn not in IFCONV.get(self.modname, ()):
             return None
@@ -56,18 +63,34 @@ class Tx(ast.NodeTransformer):
         if a is None:
             return None
         key, tgt, e1 = a
+        def as_load(t):
+            if isinstance(t, ast.Name): return ast.Name(t.id, ast.Load())
+            if isinstance(t, ast.Attribute): return ast.Attribute(t.value, t.attr, ast.Load())
+            return ast.Subscript(t.value, t.slice, ast.Load())
+
+        def as_store(t):
+            if isinstance(t, ast.Name): return ast.Name(t.id, ast.Store())
+            if isinstance(t, ast.Attribute): return ast.Attribute(t.value, t.attr, ast.Store())
+            return ast.Subscript(t.value, t.slice, ast.Store())
         if node.orelse:
-            b = self._ifconv_target(node.orelse[0])
+            other = node.orelse[0]
+            if isinstance(other, ast.If):
+                other = self._try_ifconv(other, nested=True)      # elif chain: convert the inner statement first
+                if other is None:
+                    return None
+            b = self._ifconv_target(other)
             if b is None or b[0] != key:
                 return None
             e2 = b[2]
         else:
-            e2 = ast.Name(tgt.id, ast.Load()) if isinstance(tgt, ast.Name) else ast.Attribute(tgt.value, tgt.attr, ast.Load())
-        store = ast.Name(tgt.id, ast.Store()) if isinstance(tgt, ast.Name) else ast.Attribute(tgt.value, tgt.attr, ast.Store())
+            e2 = as_load(tgt)
+        store = as_store(tgt)
         lam = lambda e: ast.Lambda(ast.arguments(posonlyargs=[], args=[], kwonlyargs=[], kw_defaults=[], defaults=[]), e)
         call = ast.Call(func=ast.Name('__sx_ite__', ast.Load()), args=[node.test, lam(e1), lam(e2)], keywords=[])
         self.converted.append(qn)
-        return ast.copy_location(ast.Assign([store], call), node)
+        new = ast.copy_location(ast.Assign([store], call), node)
+        ast.fix_missing_locations(new)
+        return new
 
     def visit_Subscript(self, node):
         self.generic_visit(node)
@@ -165,12 +188,13 @@ class Tx(ast.NodeTransformer):
         return True
 
     def visit_If(self, node):
+        # if-conversion is attempted on the ORIGINAL statement; the resulting assignment is then instrumented like any other
+        r = self._try_ifconv(node)
+        if r is not None:
+            return self.visit(r)
         self.generic_visit(node)
         if self._bits_init_size(node):
             return node
-        r = self._try_ifconv(node)
-        if r is not None:
-            return r
         node.test = self._reorder(node.test)
         return node
 
@@ -181,6 +205,10 @@ class Tx(ast.NodeTransformer):
 
     def visit_IfExp(self, node):
         self.generic_visit(node)
+        if '.'.join(self.stack) in IFCONV.get(self.modname, ()):
+            lam = lambda e: ast.Lambda(ast.arguments(posonlyargs=[], args=[], kwonlyargs=[], kw_defaults=[], defaults=[]), e)
+            self.converted.append('.'.join(self.stack) + '(ifexp)')
+            return ast.copy_location(ast.Call(func=ast.Name('__sx_ite__', ast.Load()), args=[node.test, lam(node.body), lam(node.orelse)], keywords=[]), node)
         node.test = self._reorder(node.test)
         return node
 
